@@ -182,6 +182,33 @@ theorem array_elementwise (fot : List Char → Option UInt64) (t : Ty) (xs : Lis
     ((∃ x ∈ xs, ∃ e, parse fot t x = .error e) → ∃ e, parseArray fot (some t) xs = .error e) :=
   ⟨⟨rfl, rfl⟩, fun rs h => parseArray_spec null_guard fot t xs rs h, parseArray_raises fot t xs⟩
 
+/-- **Element `i` of the result is the cast of element `i` alone** (seventh pass): two arrays that hold the same
+element at position `i` — whatever stands before or after it, equal-comparing elements of another class
+(`1`, `1.0`, `True`), repetitions of it, or nothing — get the same result at position `i`, and that result is the
+element type's cast of that one element.  A cast remembered under the element as a dictionary key would break
+this (`1 == 1.0 == True` share a key); the comprehension the model is written from (`array_elementwise`) cannot. -/
+theorem array_element_alone (fot : List Char → Option UInt64) (t : Ty) (xs ys rs rs' : List (Option Val))
+    (hx : parseArray fot (some t) xs = .ok rs) (hy : parseArray fot (some t) ys = .ok rs')
+    (i j : Nat) (hi : i < xs.length) (hj : j < ys.length) (same : xs[i] = ys[j]) :
+    rs[i]? = rs'[j]? ∧ ∃ r, rs[i]? = some r ∧ parse fot t xs[i] = .ok r := by
+  obtain ⟨hl, hs⟩ := (array_elementwise fot t xs).2.1 rs hx
+  obtain ⟨hl', hs'⟩ := (array_elementwise fot t ys).2.1 rs' hy
+  have hi' : i < rs.length := by omega
+  have hj' : j < rs'.length := by omega
+  have h1 := (hs i hi hi').1
+  have h2 := (hs' j hj hj').1
+  rw [← same, h1] at h2
+  have e : rs[i] = rs'[j] := by injection h2
+  refine ⟨?_, rs[i], ?_, h1⟩
+  · rw [List.getElem?_eq_getElem hi', List.getElem?_eq_getElem hj', e]
+  · exact List.getElem?_eq_getElem hi'
+
+/-- Equal numbers of different classes are different elements for the model: `[1, True, 1]` as `ARRAY<VARCHAR>`. -/
+example :
+    parseArray (fun _ => none) (some (.varchar none)) [some (.int 1), some (.bool true), none, some (.int 1)]
+      = .ok [some (.str ['1']), some (.str ['T', 'r', 'u', 'e']), none, some (.str ['1'])] := by
+  decide
+
 /-- **DATE / TIMESTAMP reuse the C08 parser**: already-typed values are kept (timestamps to whole
 seconds), a date casts to its midnight. -/
 theorem temporal_identity (y m d : Nat) (dt : Iso.DateTime) :
